@@ -415,8 +415,16 @@ def run(tier, pid="C12"):
     pool = ThreadPoolExecutor(2)
     jobs = {
         cfg: pool.submit(tlc.run_tlc, "conc", "MCThreadsafe", cfg, workers=4, coverage=True, timeout=1500)
-        for cfg in exps + mc
+        for cfg in exps
     }
+    if not quick:
+        # deep random behaviours of 3 threads for B1 (tlc -simulate, VERIF_SEED)
+        exps.append("ts_sim.cfg")
+        jobs["ts_sim.cfg"] = pool.submit(
+            tlc.run_tlc, "conc", "MCThreadsafe", "ts_sim.cfg", workers=4, simulate=dict(num=400, depth=120),
+            seed=rep.seed + 1, deadlock=True, coverage=False, timeout=1500)
+    for cfg in mc:
+        jobs[cfg] = pool.submit(tlc.run_tlc, "conc", "MCThreadsafe", cfg, workers=4, coverage=True, timeout=1500)
 
     # ---- B2: systematic + random executions, validated by TLC --------------------------------
     traces = []
@@ -440,7 +448,7 @@ def run(tier, pid="C12"):
             )
 
     sys_counts = []
-    cap = 2500 if quick else 60000
+    cap = 2500 if quick else 4000
     for work, faults, bound in systematic_scenarios(tier):
         if not quick:
             bound = max(bound, 3)
@@ -456,7 +464,7 @@ def run(tier, pid="C12"):
         if len(rep.violations) >= 3:
             break
     rng = random.Random(rep.seed * 7919 + 12)
-    nrand = 800 if quick else 20000
+    nrand = 800 if quick else 8000
     for j in range(nrand):
         if len(rep.violations) >= 3:
             break
@@ -470,7 +478,8 @@ def run(tier, pid="C12"):
     for cfg in exps:
         r = jobs[cfg].result()
         tlc.require_ok(r, "C12 " + cfg)
-        tlc.require_coverage(r, actions[:4], "C12 " + cfg)
+        if cfg != "ts_sim.cfg":
+            tlc.require_coverage(r, actions[:4], "C12 " + cfg)
         rep.add_tlc(r, cfg)
         n = 0
         for beh in tlc.exported(r):
